@@ -1,6 +1,1489 @@
+//! [R] real lifting (DESIGN.md §4.4): a Rust function over f64 / ndarray / quantity types is
+//! translated into a Verus `spec fn` over `real` (machine arithmetic treated as mathematical,
+//! assumption A11; physical units erased).  The rule list is closed: anything not handled
+//! below makes the unit *undecided*.
+//!
+//! directives
+//!   //@ltype  <RustTypeName> => <spec type>          (type map entry, by last path segment)
+//!   //@lstruct <file> <Name>                          lifted struct L_<Name> derived from the definition
+//!   //@lextern <name>(<spec types>) -> <spec type>    uninterpreted spec fn, emitted (L13)
+//!   //@ldeclare <name>(<spec types>) -> <spec type>   same, but defined by hand in the template
+//!   //@lift <file> <path> [name=<L_name>] [observe=a,b]   ... //@end
+//!
+//! arrays: `RArr { len: int, at: spec_fn(int) -> real }`, `RArr2 { n, m, at: spec_fn(int,int) -> real }`
+//! (declared in contracts/r/prelude.rs).
+
+use crate::extract::{line_of, Offsets};
+use crate::locate::find_fn;
 use crate::template::Block;
 use crate::Ctx;
-use serde_json::Value;
-pub fn lift_fn(_ctx: &mut Ctx, _blk: &Block) -> Result<(String, Value), String> {
-    Err("not implemented".into())
+use quote::ToTokens;
+use serde_json::{json, Value};
+use std::collections::HashMap;
+use syn::spanned::Spanned;
+
+#[derive(Default)]
+pub struct LiftRegistry {
+    pub types: HashMap<String, String>,
+    pub structs: HashMap<String, Vec<(String, String)>>,
+    /// fn name -> (param types incl. receiver, return type)
+    pub fns: HashMap<String, (Vec<String>, String)>,
+}
+
+#[derive(Clone, Debug)]
+struct Val {
+    text: String,
+    ty: String,
+}
+fn v(text: impl Into<String>, ty: &str) -> Val {
+    Val { text: text.into(), ty: ty.to_string() }
+}
+
+type R<T> = Result<T, String>;
+
+fn unsupported<T>(what: &str, e: &impl ToTokens) -> R<T> {
+    let mut s = e.to_token_stream().to_string();
+    if s.len() > 120 {
+        s.truncate(120);
+        s.push_str("...");
+    }
+    Err(format!("construct outside rule list (lift): {what}: `{s}`"))
+}
+
+pub fn float_lit(s: &str) -> R<String> {
+    let t: String = s.chars().filter(|c| *c != '_').collect();
+    let t = t.trim_end_matches("f64").trim_end_matches("f32").to_string();
+    let (mant, exp) = match t.split_once(|c| c == 'e' || c == 'E') {
+        Some((m, e)) => (m.to_string(), e.parse::<i64>().map_err(|_| format!("bad float literal {s}"))?),
+        None => (t.clone(), 0),
+    };
+    let (ip, fp) = match mant.split_once('.') {
+        Some((a, b)) => (a.to_string(), b.to_string()),
+        None => (mant.clone(), String::new()),
+    };
+    let mut digits = format!("{ip}{fp}");
+    let mut scale = fp.len() as i64 - exp; // value = digits / 10^scale
+    while digits.len() > 1 && digits.starts_with('0') {
+        digits.remove(0);
+    }
+    while scale > 0 && digits.len() > 1 && digits.ends_with('0') {
+        digits.pop();
+        scale -= 1;
+    }
+    if digits.chars().any(|c| !c.is_ascii_digit()) || digits.is_empty() {
+        return Err(format!("bad float literal {s}"));
+    }
+    if digits == "0" {
+        return Ok("0real".into());
+    }
+    if scale <= 0 {
+        let z = "0".repeat((-scale) as usize);
+        Ok(format!("{digits}{z}real"))
+    } else {
+        let z = "0".repeat(scale as usize);
+        Ok(format!("({digits}real / 1{z}real)"))
+    }
+}
+
+pub fn lift_type(reg: &LiftRegistry, ty: &syn::Type, self_ty: Option<&str>) -> R<String> {
+    match ty {
+        syn::Type::Reference(r) => lift_type(reg, &r.elem, self_ty),
+        syn::Type::Paren(p) => lift_type(reg, &p.elem, self_ty),
+        syn::Type::Tuple(t) => {
+            if t.elems.is_empty() {
+                return Ok("()".into());
+            }
+            let v: R<Vec<String>> = t.elems.iter().map(|e| lift_type(reg, e, self_ty)).collect();
+            Ok(format!("({})", v?.join(", ")))
+        }
+        syn::Type::Array(a) => {
+            let e = lift_type(reg, &a.elem, self_ty)?;
+            if e == "real" {
+                Ok("RArr".into())
+            } else {
+                unsupported("array type", ty)
+            }
+        }
+        syn::Type::Path(p) => {
+            let seg = p.path.segments.last().ok_or("empty type path")?;
+            let name = seg.ident.to_string();
+            let args: Vec<&syn::Type> = match &seg.arguments {
+                syn::PathArguments::AngleBracketed(a) => a
+                    .args
+                    .iter()
+                    .filter_map(|x| if let syn::GenericArgument::Type(t) = x { Some(t) } else { None })
+                    .collect(),
+                _ => vec![],
+            };
+            match name.as_str() {
+                "f64" | "f32" => return Ok("real".into()),
+                "usize" | "u64" | "u32" | "i32" | "i64" | "isize" => return Ok("int".into()),
+                "bool" => return Ok("bool".into()),
+                "Self" => {
+                    return match self_ty {
+                        Some(s) => Ok(reg.types.get(s).cloned().unwrap_or(format!("L_{s}"))),
+                        None => Err("Self outside impl".into()),
+                    }
+                }
+                "Array1" | "Vec" => {
+                    if args.len() == 1 && lift_type(reg, args[0], self_ty)? == "real" {
+                        return Ok("RArr".into());
+                    }
+                    return unsupported("array element type", ty);
+                }
+                "Array2" => return Ok("RArr2".into()),
+                "Option" if args.len() == 1 => return Ok(format!("Option<{}>", lift_type(reg, args[0], self_ty)?)),
+                "Arc" | "Box" if args.len() == 1 => return lift_type(reg, args[0], self_ty),
+                "EosResult" if args.len() == 1 => return Ok(format!("Result<{}, LErr>", lift_type(reg, args[0], self_ty)?)),
+                "Result" if args.len() == 2 => {
+                    return Ok(format!("Result<{}, {}>", lift_type(reg, args[0], self_ty)?, lift_type(reg, args[1], self_ty)?))
+                }
+                _ => {}
+            }
+            if let Some(t) = reg.types.get(&name) {
+                // quantity types with an array payload: Moles<Array1<f64>> → RArr
+                if t == "real" && args.len() == 1 {
+                    let inner = lift_type(reg, args[0], self_ty)?;
+                    if inner == "RArr" || inner == "RArr2" {
+                        return Ok(inner);
+                    }
+                }
+                return Ok(t.clone());
+            }
+            if reg.structs.contains_key(&name) {
+                return Ok(format!("L_{name}"));
+            }
+            Err(format!("construct outside rule list (lift): type `{}` has no //@ltype entry", ty.to_token_stream()))
+        }
+        _ => unsupported("type", ty),
+    }
+}
+
+struct Lifter<'a> {
+    reg: &'a LiftRegistry,
+    self_ty: Option<String>,
+    fn_name: String,
+    params: Vec<(String, String)>,
+    env: Vec<HashMap<String, String>>,
+    havocs: Vec<String>,
+    notes: Vec<(String, usize, String)>,
+    src: &'a str,
+    offs: &'a Offsets,
+    ret_ty: String,
+    tmp: usize,
+    /// hoisted `?` operands of the current evaluation scope: (fresh var, lifted operand)
+    hoist: Vec<Vec<(String, Val)>>,
+    /// the `&mut` parameter returned by a `()` function, if any
+    out_param: Option<String>,
+    observe: Option<String>,
+}
+
+fn is_num(t: &str) -> bool {
+    t == "real" || t == "int"
+}
+
+impl<'a> Lifter<'a> {
+    fn note(&mut self, rule: &str, sp: proc_macro2::Span, msg: &str) {
+        let l = line_of(self.src, self.offs.range(self.src, sp).0);
+        self.notes.push((rule.to_string(), l, msg.to_string()));
+    }
+    fn lookup(&self, name: &str) -> Option<String> {
+        for m in self.env.iter().rev() {
+            if let Some(t) = m.get(name) {
+                return Some(t.clone());
+            }
+        }
+        None
+    }
+    fn bind(&mut self, name: &str, ty: &str) {
+        self.env.last_mut().unwrap().insert(name.to_string(), ty.to_string());
+    }
+    fn fresh(&mut self, base: &str) -> String {
+        self.tmp += 1;
+        format!("{base}__{}", self.tmp)
+    }
+
+    fn elem(&self, a: &Val, idx: &str) -> R<Val> {
+        match a.ty.as_str() {
+            "RArr" => Ok(v(format!("({}.at)({idx})", a.text), "real")),
+            _ => Err(format!("construct outside rule list (lift): indexing a value of type {}", a.ty)),
+        }
+    }
+
+    fn binop(&mut self, op: &syn::BinOp, a: Val, b: Val, whole: &syn::Expr) -> R<Val> {
+        use syn::BinOp::*;
+        let sym = match op {
+            Add(_) => "+",
+            Sub(_) => "-",
+            Mul(_) => "*",
+            Div(_) => "/",
+            Rem(_) => "%",
+            Lt(_) => "<",
+            Le(_) => "<=",
+            Gt(_) => ">",
+            Ge(_) => ">=",
+            Eq(_) => "==",
+            Ne(_) => "!=",
+            And(_) => "&&",
+            Or(_) => "||",
+            _ => return unsupported("binary operator", whole),
+        };
+        let arith = matches!(op, Add(_) | Sub(_) | Mul(_) | Div(_) | Rem(_));
+        let cmp = matches!(op, Lt(_) | Le(_) | Gt(_) | Ge(_) | Eq(_) | Ne(_));
+        if matches!(op, And(_) | Or(_)) {
+            return Ok(v(format!("({} {sym} {})", a.text, b.text), "bool"));
+        }
+        if arith {
+            match (a.ty.as_str(), b.ty.as_str()) {
+                ("real", "real") | ("int", "int") => {
+                    if a.ty == "int" && matches!(op, Div(_) | Sub(_)) {
+                        self.note("L3", whole.span(), "machine-integer subtraction/division lifted to int (side condition: no wrap-around)");
+                    }
+                    return Ok(v(format!("({} {sym} {})", a.text, b.text), &a.ty));
+                }
+                ("RArr", "real") => {
+                    self.note("L9", whole.span(), "element-wise array arithmetic");
+                    return Ok(v(format!("RArr {{ len: {0}.len, at: |i__: int| ({0}.at)(i__) {sym} {1} }}", a.text, b.text), "RArr"));
+                }
+                ("real", "RArr") => {
+                    self.note("L9", whole.span(), "element-wise array arithmetic");
+                    return Ok(v(format!("RArr {{ len: {1}.len, at: |i__: int| {0} {sym} ({1}.at)(i__) }}", a.text, b.text), "RArr"));
+                }
+                ("RArr", "RArr") => {
+                    self.note("L9", whole.span(), "element-wise array arithmetic");
+                    return Ok(v(
+                        format!("RArr {{ len: {0}.len, at: |i__: int| ({0}.at)(i__) {sym} ({1}.at)(i__) }}", a.text, b.text),
+                        "RArr",
+                    ));
+                }
+                _ => {}
+            }
+        }
+        if cmp && (a.ty == b.ty) {
+            return Ok(v(format!("({} {sym} {})", a.text, b.text), "bool"));
+        }
+        Err(format!(
+            "construct outside rule list (lift): operator {sym} on {} and {} in `{}`",
+            a.ty,
+            b.ty,
+            whole.to_token_stream()
+        ))
+    }
+
+    fn path_str(p: &syn::Path) -> String {
+        p.segments.iter().map(|s| s.ident.to_string()).collect::<Vec<_>>().join("::")
+    }
+
+    fn closure1(&mut self, c: &syn::Expr, arg_ty: &str) -> R<(String, Val)> {
+        // returns (param name, lifted body)
+        let syn::Expr::Closure(cl) = c else { return unsupported("expected closure", c) };
+        if cl.inputs.len() != 1 {
+            return unsupported("closure arity", c);
+        }
+        let name = match &cl.inputs[0] {
+            syn::Pat::Ident(i) => i.ident.to_string(),
+            syn::Pat::Reference(r) => match &*r.pat {
+                syn::Pat::Ident(i) => i.ident.to_string(),
+                _ => return unsupported("closure pattern", c),
+            },
+            syn::Pat::Wild(_) => self.fresh("w"),
+            _ => return unsupported("closure pattern", c),
+        };
+        self.env.push(HashMap::new());
+        self.bind(&name, arg_ty);
+        let b = self.scoped(&cl.body);
+        self.env.pop();
+        Ok((name, b?))
+    }
+
+    /// lift an expression in its own evaluation scope (wraps hoisted `?` operands around it)
+    fn scoped(&mut self, e: &syn::Expr) -> R<Val> {
+        self.hoist.push(Vec::new());
+        let r = self.expr(e);
+        let hs = self.hoist.pop().unwrap();
+        let r = r?;
+        Ok(self.wrap_hoists(hs, r))
+    }
+    fn wrap_hoists(&self, hs: Vec<(String, Val)>, r: Val) -> Val {
+        let mut text = r.text;
+        for (name, val) in hs.into_iter().rev() {
+            text = format!("(match {} {{ Err(e__) => Err(e__), Ok({name}) => {text} }})", val.text);
+        }
+        v(text, &r.ty)
+    }
+
+    fn expr(&mut self, e: &syn::Expr) -> R<Val> {
+        use syn::Expr;
+        match e {
+            Expr::Paren(p) => {
+                let x = self.expr(&p.expr)?;
+                Ok(v(format!("({})", x.text), &x.ty))
+            }
+            Expr::Group(g) => self.expr(&g.expr),
+            Expr::Lit(l) => match &l.lit {
+                syn::Lit::Float(f) => Ok(v(float_lit(&f.to_string())?, "real")),
+                syn::Lit::Int(i) => {
+                    if i.suffix() == "f64" {
+                        Ok(v(float_lit(i.base10_digits())?, "real"))
+                    } else {
+                        Ok(v(format!("{}int", i.base10_digits()), "int"))
+                    }
+                }
+                syn::Lit::Bool(b) => Ok(v(if b.value { "true" } else { "false" }, "bool")),
+                _ => unsupported("literal", e),
+            },
+            Expr::Path(p) => {
+                let s = Self::path_str(&p.path);
+                if s == "self" {
+                    let t = self.lookup("self_").ok_or("self outside method")?;
+                    return Ok(v("self_", &t));
+                }
+                if p.path.segments.len() == 1 {
+                    if let Some(t) = self.lookup(&s) {
+                        return Ok(v(s, &t));
+                    }
+                }
+                // constants
+                match s.as_str() {
+                    "PI" | "std::f64::consts::PI" => return Ok(v("PI()", "real")),
+                    "FRAC_PI_3" => return Ok(v("(PI() / 3real)", "real")),
+                    "FRAC_PI_6" => return Ok(v("(PI() / 6real)", "real")),
+                    "FRAC_PI_2" => return Ok(v("(PI() / 2real)", "real")),
+                    "RGAS" => return Ok(v("RGAS()", "real")),
+                    "None" => return Ok(v("None", "Option<?>")),
+                    _ => {}
+                }
+                // enum variants / unit structs: keep the path, `Self` resolved
+                let mut segs: Vec<String> = p.path.segments.iter().map(|s| s.ident.to_string()).collect();
+                if segs[0] == "Self" {
+                    segs[0] = self.self_ty.clone().ok_or("Self outside impl")?;
+                }
+                if segs.len() >= 2 {
+                    let ty = segs[segs.len() - 2].clone();
+                    return Ok(v(segs.join("::"), &ty));
+                }
+                // bare variant imported by glob (e.g. DV, DT)
+                if let Some(t) = self.reg.types.get(&s) {
+                    return Ok(v(s, t));
+                }
+                Err(format!("construct outside rule list (lift): unknown name `{s}`"))
+            }
+            Expr::Unary(u) => {
+                let x = self.expr(&u.expr)?;
+                match u.op {
+                    syn::UnOp::Neg(_) => {
+                        if x.ty == "RArr" {
+                            return Ok(v(format!("RArr {{ len: {0}.len, at: |i__: int| -(({0}.at)(i__)) }}", x.text), "RArr"));
+                        }
+                        Ok(v(format!("(-({}))", x.text), &x.ty))
+                    }
+                    syn::UnOp::Not(_) => Ok(v(format!("(!({}))", x.text), "bool")),
+                    syn::UnOp::Deref(_) => Ok(x),
+                    _ => unsupported("unary operator", e),
+                }
+            }
+            Expr::Reference(r) => self.expr(&r.expr),
+            Expr::Binary(b) => {
+                let l = self.expr(&b.left)?;
+                let r = self.expr(&b.right)?;
+                self.binop(&b.op, l, r, e)
+            }
+            Expr::Cast(c) => {
+                let x = self.expr(&c.expr)?;
+                let t = lift_type(self.reg, &c.ty, self.self_ty.as_deref())?;
+                match (x.ty.as_str(), t.as_str()) {
+                    ("int", "real") => Ok(v(format!("(({}) as real)", x.text), "real")),
+                    (a, b) if a == b => Ok(x),
+                    _ => unsupported("cast", e),
+                }
+            }
+            Expr::Field(f) => {
+                let base = self.expr(&f.base)?;
+                match &f.member {
+                    syn::Member::Named(n) => {
+                        let name = n.to_string();
+                        let sname = base.ty.strip_prefix("L_").unwrap_or(&base.ty).to_string();
+                        if let Some(fields) = self.reg.structs.get(&sname) {
+                            if let Some((_, t)) = fields.iter().find(|(k, _)| *k == name) {
+                                return Ok(v(format!("{}.{name}", base.text), t));
+                            }
+                        }
+                        Err(format!("construct outside rule list (lift): field `{name}` of type {}", base.ty))
+                    }
+                    syn::Member::Unnamed(i) => {
+                        // tuple field: type from "(a, b)" text
+                        let inner = base.ty.trim_start_matches('(').trim_end_matches(')');
+                        let parts = split_top(inner);
+                        let t = parts.get(i.index as usize).cloned().unwrap_or_else(|| "?".into());
+                        Ok(v(format!("{}.{}", base.text, i.index), t.trim()))
+                    }
+                }
+            }
+            Expr::Index(ix) => {
+                let a = self.expr(&ix.expr)?;
+                if let Expr::Array(arr) = &*ix.index {
+                    if arr.elems.len() == 2 && a.ty == "RArr2" {
+                        let i = self.expr(&arr.elems[0])?;
+                        let j = self.expr(&arr.elems[1])?;
+                        return Ok(v(format!("({}.at)({}, {})", a.text, i.text, j.text), "real"));
+                    }
+                }
+                let i = self.expr(&ix.index)?;
+                self.elem(&a, &i.text)
+            }
+            Expr::If(i) => {
+                if matches!(&*i.cond, Expr::Let(_)) {
+                    return self.if_let(i);
+                }
+                let c = self.expr(&i.cond)?;
+                let t = self.block_scoped(&i.then_branch)?;
+                let Some((_, eb)) = &i.else_branch else { return unsupported("if without else in value position", e) };
+                let f = self.scoped(eb)?;
+                let ty = if t.ty == f.ty || f.ty.contains('?') { t.ty.clone() } else if t.ty.contains('?') { f.ty.clone() } else {
+                    return Err(format!("construct outside rule list (lift): if branches of types {} / {}", t.ty, f.ty));
+                };
+                Ok(v(format!("(if {} {{ {} }} else {{ {} }})", c.text, t.text, f.text), &ty))
+            }
+            Expr::Block(b) => self.block_scoped(&b.block),
+            Expr::Match(m) => self.match_expr(m, None),
+            Expr::Tuple(t) => {
+                let vs: R<Vec<Val>> = t.elems.iter().map(|x| self.expr(x)).collect();
+                let vs = vs?;
+                Ok(v(
+                    format!("({})", vs.iter().map(|x| x.text.clone()).collect::<Vec<_>>().join(", ")),
+                    &format!("({})", vs.iter().map(|x| x.ty.clone()).collect::<Vec<_>>().join(", ")),
+                ))
+            }
+            Expr::Struct(s) => {
+                let mut name = Self::path_str(&s.path);
+                if name == "Self" {
+                    name = self.self_ty.clone().ok_or("Self outside impl")?;
+                }
+                let lname = name.rsplit("::").next().unwrap().to_string();
+                let fields = self.reg.structs.get(&lname).ok_or(format!("construct outside rule list (lift): struct literal of `{name}` (no //@lstruct)"))?.clone();
+                let mut parts = Vec::new();
+                for fv in &s.fields {
+                    let syn::Member::Named(n) = &fv.member else { return unsupported("tuple struct literal", e) };
+                    let x = self.expr(&fv.expr)?;
+                    let want = fields.iter().find(|(k, _)| n == k).map(|(_, t)| t.clone()).unwrap_or_default();
+                    if want != x.ty && !x.ty.contains('?') {
+                        return Err(format!("construct outside rule list (lift): field {n}: {} initialised with {}", want, x.ty));
+                    }
+                    parts.push(format!("{n}: {}", x.text));
+                }
+                if s.rest.is_some() {
+                    return unsupported("struct update syntax", e);
+                }
+                Ok(v(format!("L_{lname} {{ {} }}", parts.join(", ")), &format!("L_{lname}")))
+            }
+            Expr::Try(t) => {
+                let inner = self.expr(&t.expr)?;
+                let okty = inner
+                    .ty
+                    .strip_prefix("Result<")
+                    .map(|s| split_top(&s[..s.len() - 1])[0].trim().to_string())
+                    .ok_or(format!("construct outside rule list (lift): `?` on a value of type {}", inner.ty))?;
+                let name = self.fresh("q");
+                self.note("L16", e.span(), "`?` lifted to a match on the Result");
+                self.hoist.last_mut().unwrap().push((name.clone(), inner));
+                Ok(v(name, &okty))
+            }
+            Expr::Call(c) => self.call(c, e),
+            Expr::MethodCall(m) => self.method(m, e),
+            Expr::Macro(m) => {
+                let name = Self::path_str(&m.mac.path);
+                if name == "vec" {
+                    // vec![e; n]
+                    let ts = m.mac.tokens.to_string();
+                    if let Some((a, b)) = ts.rsplit_once(';') {
+                        let ea: syn::Expr = syn::parse_str(a).map_err(|e| e.to_string())?;
+                        let eb: syn::Expr = syn::parse_str(b).map_err(|e| e.to_string())?;
+                        let x = self.expr(&ea)?;
+                        let n = self.expr(&eb)?;
+                        if x.ty == "real" && n.ty == "int" {
+                            return Ok(v(format!("RArr {{ len: {}, at: |i__: int| {} }}", n.text, x.text), "RArr"));
+                        }
+                    }
+                }
+                if name == "unreachable" {
+                    return Ok(v("arbitrary()", "?"));
+                }
+                unsupported("macro", e)
+            }
+            Expr::Closure(_) => unsupported("closure in value position", e),
+            Expr::Return(_) => unsupported("return in expression position (L14 handles statement position only)", e),
+            Expr::Range(_) => unsupported("range in value position", e),
+            _ => unsupported("expression", e),
+        }
+    }
+
+    fn if_let(&mut self, i: &syn::ExprIf) -> R<Val> {
+        let syn::Expr::Let(l) = &*i.cond else { unreachable!() };
+        let scrut = self.expr(&l.expr)?;
+        self.env.push(HashMap::new());
+        let pat = self.pattern(&l.pat, &scrut.ty)?;
+        let t = self.block_scoped(&i.then_branch);
+        self.env.pop();
+        let t = t?;
+        let Some((_, eb)) = &i.else_branch else { return unsupported("if-let without else in value position", &i.cond) };
+        let f = self.scoped(eb)?;
+        Ok(v(format!("(match {} {{ {pat} => {{ {} }}, _ => {{ {} }} }})", scrut.text, t.text, f.text), &t.ty))
+    }
+
+    /// lift a pattern, binding its variables with types derived from the scrutinee type
+    fn pattern(&mut self, p: &syn::Pat, ty: &str) -> R<String> {
+        match p {
+            syn::Pat::Wild(_) => Ok("_".into()),
+            syn::Pat::Ident(i) => {
+                // a bare identifier could be a glob-imported unit variant; treat lower-case as binding
+                let n = i.ident.to_string();
+                if n.chars().next().map(|c| c.is_uppercase()).unwrap_or(false) {
+                    return Ok(n);
+                }
+                self.bind(&n, ty);
+                Ok(n)
+            }
+            syn::Pat::Reference(r) => self.pattern(&r.pat, ty),
+            syn::Pat::Lit(l) => {
+                let x = self.expr(&syn::Expr::Lit(syn::ExprLit { attrs: vec![], lit: l.lit.clone() }))?;
+                Ok(x.text)
+            }
+            syn::Pat::Tuple(t) => {
+                let inner = ty.trim().strip_prefix('(').and_then(|s| s.strip_suffix(')')).unwrap_or("");
+                let parts = split_top(inner);
+                let mut out = Vec::new();
+                for (k, el) in t.elems.iter().enumerate() {
+                    let pt = parts.get(k).map(|s| s.trim().to_string()).unwrap_or_else(|| "?".into());
+                    out.push(self.pattern(el, &pt)?);
+                }
+                Ok(format!("({})", out.join(", ")))
+            }
+            syn::Pat::TupleStruct(ts) => {
+                let mut segs: Vec<String> = ts.path.segments.iter().map(|s| s.ident.to_string()).collect();
+                if segs[0] == "Self" {
+                    segs[0] = self.self_ty.clone().ok_or("Self outside impl")?;
+                }
+                let last = segs.last().unwrap().clone();
+                let inner_tys: Vec<String> = match last.as_str() {
+                    "Some" => vec![ty.strip_prefix("Option<").map(|s| s[..s.len() - 1].to_string()).unwrap_or("?".into())],
+                    "Ok" => vec![ty.strip_prefix("Result<").map(|s| split_top(&s[..s.len() - 1])[0].trim().to_string()).unwrap_or("?".into())],
+                    "Err" => vec![ty.strip_prefix("Result<").map(|s| split_top(&s[..s.len() - 1]).get(1).map(|x| x.trim().to_string()).unwrap_or("?".into())).unwrap_or("?".into())],
+                    _ => {
+                        // enum variant payloads: declared through //@ltype Enum::Variant => (t1, t2)
+                        let key = segs.join("::");
+                        match self.reg.types.get(&key) {
+                            Some(t) => split_top(t.trim().trim_start_matches('(').trim_end_matches(')')).iter().map(|s| s.trim().to_string()).collect(),
+                            None => ts.elems.iter().map(|_| "?".to_string()).collect(),
+                        }
+                    }
+                };
+                let mut out = Vec::new();
+                for (k, el) in ts.elems.iter().enumerate() {
+                    out.push(self.pattern(el, inner_tys.get(k).map(|s| s.as_str()).unwrap_or("?"))?);
+                }
+                Ok(format!("{}({})", segs.join("::"), out.join(", ")))
+            }
+            syn::Pat::Path(pp) => {
+                let mut segs: Vec<String> = pp.path.segments.iter().map(|s| s.ident.to_string()).collect();
+                if segs[0] == "Self" {
+                    segs[0] = self.self_ty.clone().ok_or("Self outside impl")?;
+                }
+                Ok(segs.join("::"))
+            }
+            syn::Pat::Or(o) => {
+                let v: R<Vec<String>> = o.cases.iter().map(|c| self.pattern(c, ty)).collect();
+                Ok(v?.join(" | "))
+            }
+            _ => unsupported("pattern", p),
+        }
+    }
+
+    fn match_expr(&mut self, m: &syn::ExprMatch, cont: Option<&dyn Fn(&mut Self) -> R<Val>>) -> R<Val> {
+        let scrut = self.expr(&m.expr)?;
+        // integer scrutinee with literal patterns → if-chain (L7)
+        if scrut.ty == "int" {
+            let mut text = String::new();
+            let mut ty = String::new();
+            for (k, arm) in m.arms.iter().enumerate() {
+                let body = self.arm_body(&arm.body, cont)?;
+                if ty.is_empty() || ty.contains('?') {
+                    ty = body.ty.clone();
+                }
+                match &arm.pat {
+                    syn::Pat::Lit(l) => {
+                        let lit = self.expr(&syn::Expr::Lit(syn::ExprLit { attrs: vec![], lit: l.lit.clone() }))?;
+                        text.push_str(&format!("{}if {} == {} {{ {} }}", if k > 0 { " else " } else { "" }, scrut.text, lit.text, body.text));
+                    }
+                    syn::Pat::Wild(_) => {
+                        text.push_str(&format!(" else {{ {} }}", body.text));
+                    }
+                    p => return unsupported("integer match pattern", p),
+                }
+            }
+            return Ok(v(format!("({text})"), &ty));
+        }
+        let mut arms = Vec::new();
+        let mut ty = String::new();
+        for arm in &m.arms {
+            if arm.guard.is_some() {
+                return unsupported("match guard", &arm.pat);
+            }
+            self.env.push(HashMap::new());
+            let p = self.pattern(&arm.pat, &scrut.ty);
+            let b = match p {
+                Ok(_) => self.arm_body(&arm.body, cont),
+                Err(ref e) => Err(e.clone()),
+            };
+            self.env.pop();
+            let (p, b) = (p?, b?);
+            if ty.is_empty() || ty.contains('?') {
+                ty = b.ty.clone();
+            }
+            arms.push(format!("{p} => {{ {} }}", b.text));
+        }
+        Ok(v(format!("(match {} {{ {} }})", scrut.text, arms.join(", ")), &ty))
+    }
+
+    /// body of a match arm / branch; with a continuation (L14) a body that does not `return`
+    /// continues with the rest of the enclosing statement list
+    fn arm_body(&mut self, body: &syn::Expr, cont: Option<&dyn Fn(&mut Self) -> R<Val>>) -> R<Val> {
+        match cont {
+            None => self.scoped(body),
+            Some(k) => match body {
+                syn::Expr::Return(r) => {
+                    let e = r.expr.as_ref().ok_or("return without value")?;
+                    self.scoped(e)
+                }
+                syn::Expr::Block(b) => self.stmts_with_cont(&b.block.stmts, Some(k)),
+                syn::Expr::Tuple(t) if t.elems.is_empty() => k(self),
+                _ => unsupported("match arm before continuation", body),
+            },
+        }
+    }
+
+    fn block_scoped(&mut self, b: &syn::Block) -> R<Val> {
+        self.env.push(HashMap::new());
+        let r = self.stmts_with_cont(&b.stmts, None);
+        self.env.pop();
+        r
+    }
+
+    fn contains_return(e: &syn::Expr) -> bool {
+        struct F(bool);
+        impl<'ast> syn::visit::Visit<'ast> for F {
+            fn visit_expr_return(&mut self, _: &'ast syn::ExprReturn) {
+                self.0 = true;
+            }
+            fn visit_expr_closure(&mut self, _: &'ast syn::ExprClosure) {}
+        }
+        let mut f = F(false);
+        syn::visit::Visit::visit_expr(&mut f, e);
+        f.0
+    }
+
+    fn assigned_vars(b: &syn::Block) -> Vec<String> {
+        struct A(Vec<String>);
+        impl<'ast> syn::visit::Visit<'ast> for A {
+            fn visit_expr_assign(&mut self, a: &'ast syn::ExprAssign) {
+                if let syn::Expr::Path(p) = &*a.left {
+                    if let Some(i) = p.path.get_ident() {
+                        if !self.0.contains(&i.to_string()) {
+                            self.0.push(i.to_string());
+                        }
+                    }
+                }
+                syn::visit::visit_expr_assign(self, a);
+            }
+            fn visit_expr_binary(&mut self, b: &'ast syn::ExprBinary) {
+                use syn::BinOp::*;
+                if matches!(b.op, AddAssign(_) | SubAssign(_) | MulAssign(_) | DivAssign(_)) {
+                    if let syn::Expr::Path(p) = &*b.left {
+                        if let Some(i) = p.path.get_ident() {
+                            if !self.0.contains(&i.to_string()) {
+                                self.0.push(i.to_string());
+                            }
+                        }
+                    }
+                }
+                syn::visit::visit_expr_binary(self, b);
+            }
+        }
+        let mut a = A(vec![]);
+        syn::visit::Visit::visit_block(&mut a, b);
+        a.0
+    }
+
+    /// statements → nested spec `let`s; `cont` is what follows an enclosing statement (L14)
+    fn stmts_with_cont(&mut self, stmts: &[syn::Stmt], cont: Option<&dyn Fn(&mut Self) -> R<Val>>) -> R<Val> {
+        self.hoist.push(Vec::new());
+        let r = self.stmts_inner(stmts, cont);
+        let hs = self.hoist.pop().unwrap();
+        let r = r?;
+        Ok(self.wrap_hoists(hs, r))
+    }
+
+    fn stmts_inner(&mut self, stmts: &[syn::Stmt], cont: Option<&dyn Fn(&mut Self) -> R<Val>>) -> R<Val> {
+        let Some((first, rest)) = stmts.split_first() else {
+            return match cont {
+                Some(k) => k(self),
+                None => match &self.out_param {
+                    Some(p) => {
+                        let t = self.lookup(p).unwrap_or("?".into());
+                        Ok(v(p.clone(), &t))
+                    }
+                    None => Ok(v("()", "()")),
+                },
+            };
+        };
+        // hoists created by this statement must wrap this statement *and* the rest
+        self.hoist.push(Vec::new());
+        let r = self.one_stmt(first, rest, cont);
+        let hs = self.hoist.pop().unwrap();
+        let r = r?;
+        Ok(self.wrap_hoists(hs, r))
+    }
+
+    fn rest(&mut self, rest: &[syn::Stmt], cont: Option<&dyn Fn(&mut Self) -> R<Val>>) -> R<Val> {
+        self.stmts_inner(rest, cont)
+    }
+
+    fn one_stmt(&mut self, st: &syn::Stmt, rest: &[syn::Stmt], cont: Option<&dyn Fn(&mut Self) -> R<Val>>) -> R<Val> {
+        match st {
+            syn::Stmt::Local(l) => {
+                let init = l.init.as_ref().ok_or("let without initialiser")?;
+                if init.diverge.is_some() {
+                    return unsupported("let-else", &l.pat);
+                }
+                let x = self.expr(&init.expr)?;
+                let mut ty = x.ty.clone();
+                let pat = match &l.pat {
+                    syn::Pat::Type(pt) => {
+                        ty = lift_type(self.reg, &pt.ty, self.self_ty.as_deref())?;
+                        self.pattern(&pt.pat, &ty)?
+                    }
+                    p => self.pattern(p, &ty)?,
+                };
+                if let Some(obs) = self.observe.clone() {
+                    if pat == obs {
+                        // L17: observable — the value of this binding is the result
+                        return Ok(v(format!("{{ let {pat} = {}; {pat} }}", x.text), &ty));
+                    }
+                }
+                let r = self.rest(rest, cont)?;
+                Ok(v(format!("{{ let {pat} = {}; {} }}", x.text, r.text), &r.ty))
+            }
+            syn::Stmt::Expr(e, semi) => {
+                // tail expression
+                if semi.is_none() && rest.is_empty() && cont.is_none() {
+                    if let syn::Expr::Return(r) = e {
+                        let inner = r.expr.as_ref().ok_or("return without value")?;
+                        return self.expr(inner);
+                    }
+                    if let syn::Expr::Match(m) = e {
+                        return self.match_expr(m, None);
+                    }
+                    if self.out_param.is_some() {
+                        // `()` function mutating its &mut parameter: the tail is a statement
+                        return self.effect_stmt(e, rest, cont);
+                    }
+                    return self.expr(e);
+                }
+                self.effect_stmt(e, rest, cont)
+            }
+            syn::Stmt::Macro(m) => unsupported("macro statement", &m.mac.path),
+            syn::Stmt::Item(_) => Err("construct outside rule list (lift): nested item".into()),
+        }
+    }
+
+    fn effect_stmt(&mut self, e: &syn::Expr, rest: &[syn::Stmt], cont: Option<&dyn Fn(&mut Self) -> R<Val>>) -> R<Val> {
+        use syn::Expr;
+        match e {
+            Expr::Return(r) => {
+                let inner = r.expr.as_ref().ok_or("return without value")?;
+                self.expr(inner)
+            }
+            Expr::Assign(a) => {
+                let name = match &*a.left {
+                    Expr::Path(p) if p.path.get_ident().is_some() => p.path.get_ident().unwrap().to_string(),
+                    Expr::Unary(u) if matches!(u.op, syn::UnOp::Deref(_)) => match &*u.expr {
+                        Expr::Path(p) if p.path.get_ident().is_some() => p.path.get_ident().unwrap().to_string(),
+                        _ => return unsupported("assignment target", e),
+                    },
+                    _ => return unsupported("assignment target", e),
+                };
+                let x = self.expr(&a.right)?;
+                self.note("L5", e.span(), "reassignment lifted to a shadowing spec let");
+                self.bind(&name, &x.ty);
+                let r = self.rest(rest, cont)?;
+                Ok(v(format!("{{ let {name} = {}; {} }}", x.text, r.text), &r.ty))
+            }
+            Expr::Binary(b) if matches!(b.op, syn::BinOp::AddAssign(_) | syn::BinOp::SubAssign(_) | syn::BinOp::MulAssign(_) | syn::BinOp::DivAssign(_)) => {
+                let name = match &*b.left {
+                    Expr::Path(p) if p.path.get_ident().is_some() => p.path.get_ident().unwrap().to_string(),
+                    _ => return unsupported("compound assignment target", e),
+                };
+                let l = self.expr(&b.left)?;
+                let r_ = self.expr(&b.right)?;
+                let op = match b.op {
+                    syn::BinOp::AddAssign(t) => syn::BinOp::Add(syn::token::Plus(t.spans[0])),
+                    syn::BinOp::SubAssign(t) => syn::BinOp::Sub(syn::token::Minus(t.spans[0])),
+                    syn::BinOp::MulAssign(t) => syn::BinOp::Mul(syn::token::Star(t.spans[0])),
+                    syn::BinOp::DivAssign(t) => syn::BinOp::Div(syn::token::Slash(t.spans[0])),
+                    _ => unreachable!(),
+                };
+                let x = self.binop(&op, l, r_, e)?;
+                self.bind(&name, &x.ty);
+                let r = self.rest(rest, cont)?;
+                Ok(v(format!("{{ let {name} = {}; {} }}", x.text, r.text), &r.ty))
+            }
+            Expr::ForLoop(_) | Expr::While(_) | Expr::Loop(_) => {
+                // L6: havoc every variable assigned in the loop
+                let body = match e {
+                    Expr::ForLoop(f) => &f.body,
+                    Expr::While(w) => &w.body,
+                    Expr::Loop(l) => &l.body,
+                    _ => unreachable!(),
+                };
+                if Self::contains_return(e) {
+                    return unsupported("loop containing return (L6 havoc would drop a control transfer)", &"loop");
+                }
+                let vars = Self::assigned_vars(body);
+                let mut text = String::from("{ ");
+                let plist: Vec<String> = self.params.iter().map(|(n, _)| n.clone()).collect();
+                for var in &vars {
+                    let ty = self.lookup(var).ok_or(format!("loop assigns unknown variable {var}"))?;
+                    let hname = format!("{}__havoc_{var}", self.fn_name);
+                    let decl = format!(
+                        "pub uninterp spec fn {hname}({}) -> {ty};",
+                        self.params.iter().map(|(n, t)| format!("{n}: {t}")).collect::<Vec<_>>().join(", ")
+                    );
+                    if !self.havocs.contains(&decl) {
+                        self.havocs.push(decl);
+                    }
+                    self.note("L6", e.span(), &format!("loop: variable `{var}` havoc'd (uninterpreted function of the inputs)"));
+                    text.push_str(&format!("let {var} = {hname}({}); ", plist.join(", ")));
+                }
+                let r = self.rest(rest, cont)?;
+                text.push_str(&r.text);
+                text.push_str(" }");
+                Ok(v(text, &r.ty))
+            }
+            Expr::If(i) if Self::contains_return(e) => {
+                // L14: `if c { return e; }  rest`  →  if c { e } else { rest }
+                if matches!(&*i.cond, Expr::Let(_)) {
+                    let Expr::Let(l) = &*i.cond else { unreachable!() };
+                    let scrut = self.expr(&l.expr)?;
+                    self.env.push(HashMap::new());
+                    let pat = self.pattern(&l.pat, &scrut.ty);
+                    let k = |s: &mut Self| s.rest(rest, cont);
+                    let t = match pat {
+                        Ok(_) => self.stmts_with_cont(&i.then_branch.stmts, Some(&k)),
+                        Err(ref e) => Err(e.clone()),
+                    };
+                    self.env.pop();
+                    let (pat, t) = (pat?, t?);
+                    if i.else_branch.is_some() {
+                        return unsupported("if-let with else and return", &i.cond);
+                    }
+                    let f = self.rest(rest, cont)?;
+                    self.note("L14", e.span(), "early return: rest of the body moved into the other branch");
+                    return Ok(v(format!("(match {} {{ {pat} => {{ {} }}, _ => {{ {} }} }})", scrut.text, t.text, f.text), &t.ty));
+                }
+                let c = self.expr(&i.cond)?;
+                let k = |s: &mut Self| s.rest(rest, cont);
+                self.env.push(HashMap::new());
+                let t = self.stmts_with_cont(&i.then_branch.stmts, Some(&k));
+                self.env.pop();
+                let t = t?;
+                let f = match &i.else_branch {
+                    None => self.rest(rest, cont)?,
+                    Some((_, eb)) => match &**eb {
+                        Expr::Block(b) => {
+                            self.env.push(HashMap::new());
+                            let r = self.stmts_with_cont(&b.block.stmts, Some(&k));
+                            self.env.pop();
+                            r?
+                        }
+                        other => {
+                            // else if ...
+                            let stmts = vec![syn::Stmt::Expr(other.clone(), None)];
+                            self.stmts_with_cont(&stmts, Some(&k))?
+                        }
+                    },
+                };
+                self.note("L14", e.span(), "early return: rest of the body moved into the other branch");
+                Ok(v(format!("(if {} {{ {} }} else {{ {} }})", c.text, t.text, f.text), &t.ty))
+            }
+            Expr::Match(m) if Self::contains_return(e) => {
+                let k = |s: &mut Self| s.rest(rest, cont);
+                self.note("L14", e.span(), "early return: rest of the body moved into the non-returning arms");
+                self.match_expr(m, Some(&k))
+            }
+            Expr::If(i) => {
+                // conditional assignment(s) without return: every variable assigned in a branch becomes
+                // `let x = if c { .. } else { x }` (tuple of all assigned variables)
+                let mut vars = Self::assigned_vars(&i.then_branch);
+                if let Some((_, eb)) = &i.else_branch {
+                    if let Expr::Block(b) = &**eb {
+                        for x in Self::assigned_vars(&b.block) {
+                            if !vars.contains(&x) {
+                                vars.push(x);
+                            }
+                        }
+                    } else if let Expr::If(_) = &**eb {
+                        let fake = syn::Block { brace_token: Default::default(), stmts: vec![syn::Stmt::Expr((**eb).clone(), None)] };
+                        for x in Self::assigned_vars(&fake) {
+                            if !vars.contains(&x) {
+                                vars.push(x);
+                            }
+                        }
+                    }
+                }
+                if vars.is_empty() {
+                    return unsupported("if statement without assignments or return", e);
+                }
+                let tup = if vars.len() == 1 { vars[0].clone() } else { format!("({})", vars.join(", ")) };
+                let tys: Vec<String> = vars.iter().map(|x| self.lookup(x).unwrap_or("?".into())).collect();
+                let tup_ty = if vars.len() == 1 { tys[0].clone() } else { format!("({})", tys.join(", ")) };
+                let tupc = tup.clone();
+                let tyc = tup_ty.clone();
+                let k = move |_s: &mut Self| Ok(v(tupc.clone(), &tyc));
+                let c = self.expr(&i.cond)?;
+                self.env.push(HashMap::new());
+                let t = self.stmts_with_cont(&i.then_branch.stmts, Some(&k));
+                self.env.pop();
+                let t = t?;
+                let f = match &i.else_branch {
+                    None => v(tup.clone(), &tup_ty),
+                    Some((_, eb)) => match &**eb {
+                        Expr::Block(b) => {
+                            self.env.push(HashMap::new());
+                            let r = self.stmts_with_cont(&b.block.stmts, Some(&k));
+                            self.env.pop();
+                            r?
+                        }
+                        other => {
+                            let stmts = vec![syn::Stmt::Expr(other.clone(), Some(Default::default()))];
+                            self.env.push(HashMap::new());
+                            let r = self.stmts_with_cont(&stmts, Some(&k));
+                            self.env.pop();
+                            r?
+                        }
+                    },
+                };
+                self.note("L5", e.span(), "conditional assignment lifted to `let x = if c { .. } else { x }`");
+                let r = self.rest(rest, cont)?;
+                Ok(v(format!("{{ let {tup} = (if {} {{ {} }} else {{ {} }}); {} }}", c.text, t.text, f.text, r.text), &r.ty))
+            }
+            Expr::MethodCall(m) if m.method == "mapv_inplace" => {
+                let name = match &*m.receiver {
+                    Expr::Path(p) if p.path.get_ident().is_some() => p.path.get_ident().unwrap().to_string(),
+                    _ => return unsupported("mapv_inplace receiver", e),
+                };
+                let recv = self.expr(&m.receiver)?;
+                let (pn, body) = self.closure1(&m.args[0], "real")?;
+                let val = format!("RArr {{ len: {0}.len, at: |i__: int| {{ let {pn} = ({0}.at)(i__); {1} }} }}", recv.text, body.text);
+                self.note("L9", e.span(), "mapv_inplace lifted to an element-wise array value");
+                let r = self.rest(rest, cont)?;
+                Ok(v(format!("{{ let {name} = {val}; {} }}", r.text), &r.ty))
+            }
+            Expr::Match(m) => {
+                // a statement-position match whose arms assign / mutate the out parameter
+                let k = |s: &mut Self| s.rest(rest, cont);
+                self.match_expr(m, Some(&k))
+            }
+            Expr::Block(b) => {
+                let k = |s: &mut Self| s.rest(rest, cont);
+                self.stmts_with_cont(&b.block.stmts, Some(&k))
+            }
+            Expr::Tuple(t) if t.elems.is_empty() => self.rest(rest, cont),
+            _ => unsupported("statement", e),
+        }
+    }
+
+    fn call(&mut self, c: &syn::ExprCall, whole: &syn::Expr) -> R<Val> {
+        let syn::Expr::Path(p) = &*c.func else { return unsupported("call target", whole) };
+        let path = Self::path_str(&p.path);
+        let last = p.path.segments.last().unwrap().ident.to_string();
+        let first = p.path.segments.first().unwrap().ident.to_string();
+        match last.as_str() {
+            "from_reduced" | "new" if (last == "from_reduced" || first == "Dimensionless") && c.args.len() == 1 => {
+                self.note("L11", whole.span(), "unit constructor erased");
+                return self.expr(&c.args[0]);
+            }
+            "Some" | "Ok" | "Err" if p.path.segments.len() == 1 => {
+                let x = self.expr(&c.args[0])?;
+                let ty = match last.as_str() {
+                    "Some" => format!("Option<{}>", x.ty),
+                    "Ok" => {
+                        if self.ret_ty.starts_with("Result<") { self.ret_ty.clone() } else { format!("Result<{}, LErr>", x.ty) }
+                    }
+                    _ => {
+                        if self.ret_ty.starts_with("Result<") { self.ret_ty.clone() } else { "Result<?, LErr>".into() }
+                    }
+                };
+                if last == "Err" {
+                    return Ok(v("Err(LErr::E)".to_string(), &ty));
+                }
+                return Ok(v(format!("{last}({})", x.text), &ty));
+            }
+            _ => {}
+        }
+        if first == "EosError" {
+            return Ok(v("LErr::E", "LErr"));
+        }
+        if first == "String" {
+            return Ok(v("()", "()"));
+        }
+        match path.as_str() {
+            "Array1::linspace" | "Array::linspace" => {
+                let a = self.expr(&c.args[0])?;
+                let b = self.expr(&c.args[1])?;
+                let n = self.expr(&c.args[2])?;
+                self.note("L8", whole.span(), "linspace lifted by its defining formula (A12)");
+                return Ok(v(
+                    format!("RArr {{ len: {2}, at: |i__: int| {0} + (i__ as real) * ({1} - {0}) / (({2} - 1int) as real) }}", a.text, b.text, n.text),
+                    "RArr",
+                ));
+            }
+            "Array1::from_elem" | "Array::from_elem" => {
+                let n = self.expr(&c.args[0])?;
+                let x = self.expr(&c.args[1])?;
+                return Ok(v(format!("RArr {{ len: {}, at: |i__: int| {} }}", n.text, x.text), "RArr"));
+            }
+            "Array1::from_shape_fn" | "Array::from_shape_fn" | "Quantity::from_shape_fn" | "Array2::from_shape_fn" => {
+                let n = self.expr(&c.args[0])?;
+                if n.ty == "int" {
+                    let (pn, body) = self.closure1(&c.args[1], "int")?;
+                    self.note("L8", whole.span(), "from_shape_fn lifted to an index function");
+                    return Ok(v(format!("RArr {{ len: {}, at: |{pn}: int| {} }}", n.text, body.text), "RArr"));
+                }
+                if n.ty == "(int, int)" {
+                    let syn::Expr::Closure(cl) = &c.args[1] else { return unsupported("from_shape_fn closure", whole) };
+                    let syn::Pat::Tuple(tp) = &cl.inputs[0] else { return unsupported("from_shape_fn closure pattern", whole) };
+                    let names: Vec<String> = tp.elems.iter().map(|p| p.to_token_stream().to_string()).collect();
+                    self.env.push(HashMap::new());
+                    for nm in &names {
+                        self.bind(nm, "int");
+                    }
+                    let body = self.scoped(&cl.body);
+                    self.env.pop();
+                    let body = body?;
+                    self.note("L8", whole.span(), "from_shape_fn (2-D) lifted to an index function");
+                    return Ok(v(
+                        format!("RArr2 {{ n: {0}.0, m: {0}.1, at: |{1}: int, {2}: int| {3} }}", n.text, names[0], names[1], body.text),
+                        "RArr2",
+                    ));
+                }
+                return unsupported("from_shape_fn shape", whole);
+            }
+            "Quantity::from_vec" | "Array1::from_vec" | "Array::from_vec" => return self.expr(&c.args[0]),
+            "f64::max" => {
+                let a = self.expr(&c.args[0])?;
+                let b = self.expr(&c.args[1])?;
+                return Ok(v(format!("rmax({}, {})", a.text, b.text), "real"));
+            }
+            "f64::min" => {
+                let a = self.expr(&c.args[0])?;
+                let b = self.expr(&c.args[1])?;
+                return Ok(v(format!("rmin({}, {})", a.text, b.text), "real"));
+            }
+            _ => {}
+        }
+        // other functions of the unit / externs: called by last segment
+        let key = if first == "Self" || first == "State" || p.path.segments.len() == 1 { last.clone() } else { path.replace("::", "_") };
+        if let Some((ptys, rty)) = self.reg.fns.get(&key).cloned() {
+            let mut args = Vec::new();
+            for a in &c.args {
+                args.push(self.expr(a)?);
+            }
+            if args.len() != ptys.len() {
+                return Err(format!("construct outside rule list (lift): call of `{key}` with {} args, declared {}", args.len(), ptys.len()));
+            }
+            self.note("L13", whole.span(), &format!("call lifted to spec fn `{key}`"));
+            return Ok(v(format!("{key}({})", args.iter().map(|a| a.text.clone()).collect::<Vec<_>>().join(", ")), &rty));
+        }
+        // enum tuple variant constructor
+        if p.path.segments.len() >= 2 {
+            let mut segs: Vec<String> = p.path.segments.iter().map(|s| s.ident.to_string()).collect();
+            if segs[0] == "Self" {
+                segs[0] = self.self_ty.clone().ok_or("Self outside impl")?;
+            }
+            let ty = segs[segs.len() - 2].clone();
+            if self.reg.types.contains_key(&ty) || self.reg.types.contains_key(&segs.join("::")) {
+                let mut args = Vec::new();
+                for a in &c.args {
+                    args.push(self.expr(a)?.text);
+                }
+                return Ok(v(format!("{}({})", segs.join("::"), args.join(", ")), self.reg.types.get(&ty).map(|s| s.as_str()).unwrap_or(&ty)));
+            }
+        }
+        if p.path.segments.len() == 1 {
+            if let Some(t) = self.reg.types.get(&format!("variant {last}")) {
+                let mut args = Vec::new();
+                for a in &c.args {
+                    args.push(self.expr(a)?.text);
+                }
+                return Ok(v(format!("{last}({})", args.join(", ")), t));
+            }
+        }
+        Err(format!("construct outside rule list (lift): call of `{path}` (no //@lextern / //@lift for `{key}`)"))
+    }
+
+    fn method(&mut self, m: &syn::ExprMethodCall, whole: &syn::Expr) -> R<Val> {
+        let name = m.method.to_string();
+        // (a..b).map(|i| e).collect()
+        if name == "collect" {
+            if let syn::Expr::MethodCall(mm) = &*m.receiver {
+                if mm.method == "map" {
+                    let mut recv = &*mm.receiver;
+                    while let syn::Expr::Paren(p) = recv {
+                        recv = &p.expr;
+                    }
+                    if let syn::Expr::Range(r) = recv {
+                        let lo = r.start.as_ref().ok_or("open range")?;
+                        let hi = r.end.as_ref().ok_or("open range")?;
+                        let lo = self.expr(lo)?;
+                        let hi = self.expr(hi)?;
+                        if lo.text != "0int" {
+                            return unsupported("range not starting at 0", whole);
+                        }
+                        let len = if matches!(r.limits, syn::RangeLimits::Closed(_)) { format!("({} + 1int)", hi.text) } else { hi.text.clone() };
+                        let (pn, body) = self.closure1(&mm.args[0], "int")?;
+                        self.note("L8", whole.span(), "range-map-collect lifted to an index function");
+                        return Ok(v(format!("RArr {{ len: {len}, at: |{pn}: int| {} }}", body.text), "RArr"));
+                    }
+                    // list.iter().map(|&i| e).collect()
+                    if let syn::Expr::MethodCall(it) = recv {
+                        if it.method == "iter" {
+                            let list = self.expr(&it.receiver)?;
+                            if list.ty == "Seq<int>" {
+                                let (pn, body) = self.closure1(&mm.args[0], "int")?;
+                                self.note("L8", whole.span(), "iter-map-collect over an index list lifted to an index function");
+                                return Ok(v(
+                                    format!("RArr {{ len: {0}.len() as int, at: |k__: int| {{ let {pn} = {0}[k__]; {1} }} }}", list.text, body.text),
+                                    "RArr",
+                                ));
+                            }
+                        }
+                    }
+                }
+            }
+            return unsupported("collect", whole);
+        }
+        let recv = self.expr(&m.receiver)?;
+        let mut args = Vec::new();
+        for a in &m.args {
+            if matches!(a, syn::Expr::Closure(_)) {
+                args.push(v("<closure>", "closure"));
+            } else {
+                args.push(self.expr(a)?);
+            }
+        }
+        let r1 = |f: &str, x: &Val| v(format!("{f}({})", x.text), "real");
+        match (name.as_str(), recv.ty.as_str()) {
+            ("clone" | "to_owned" | "to_reduced" | "into_value" | "to_vec" | "view" | "copied" | "as_ref", _) => {
+                if name == "to_reduced" || name == "into_value" {
+                    self.note("L11", whole.span(), "unit accessor erased");
+                }
+                return Ok(recv);
+            }
+            ("exp", "real") => return Ok(r1("rexp", &recv)),
+            ("ln", "real") => return Ok(r1("rln", &recv)),
+            ("sqrt", "real") => return Ok(r1("rsqrt", &recv)),
+            ("abs", "real") => return Ok(r1("rabs", &recv)),
+            ("atan", "real") => return Ok(r1("ratan", &recv)),
+            ("tanh", "real") => return Ok(r1("rtanh", &recv)),
+            ("sinh", "real") => return Ok(r1("rsinh", &recv)),
+            ("cosh", "real") => return Ok(r1("rcosh", &recv)),
+            ("sin", "real") => return Ok(r1("rsin", &recv)),
+            ("cos", "real") => return Ok(r1("rcos", &recv)),
+            ("signum", "real") => return Ok(r1("rsignum", &recv)),
+            ("recip", "real") => return Ok(v(format!("(1real / {})", recv.text), "real")),
+            ("max", "real") if args.len() == 1 => return Ok(v(format!("rmax({}, {})", recv.text, args[0].text), "real")),
+            ("min", "real") if args.len() == 1 => return Ok(v(format!("rmin({}, {})", recv.text, args[0].text), "real")),
+            ("is_sign_negative", "real") => return Ok(v(format!("({} < 0real)", recv.text), "bool")),
+            ("is_sign_positive", "real") => return Ok(v(format!("({} >= 0real)", recv.text), "bool")),
+            ("powi", "real") => {
+                if let Some(syn::Expr::Lit(l)) = m.args.first() {
+                    if let syn::Lit::Int(i) = &l.lit {
+                        let k: usize = i.base10_parse().map_err(|_| "powi exponent")?;
+                        if (1..=6).contains(&k) {
+                            let f = vec![recv.text.clone(); k].join(" * ");
+                            return Ok(v(format!("({f})"), "real"));
+                        }
+                    }
+                }
+                if m.args.is_empty() {
+                    // quantity powi::<P2>()
+                    if let Some(t) = &m.turbofish {
+                        let s = t.args.to_token_stream().to_string();
+                        let k = match s.as_str() { "P2" => 2, "P3" => 3, _ => 0 };
+                        if k > 0 {
+                            let f = vec![recv.text.clone(); k].join(" * ");
+                            return Ok(v(format!("({f})"), "real"));
+                        }
+                    }
+                    return unsupported("powi", whole);
+                }
+                if args[0].ty == "int" {
+                    return Ok(v(format!("rpowi({}, {})", recv.text, args[0].text), "real"));
+                }
+                return unsupported("powi", whole);
+            }
+            ("len", "RArr") => return Ok(v(format!("{}.len", recv.text), "int")),
+            ("len", "Seq<int>") => return Ok(v(format!("({}.len() as int)", recv.text), "int")),
+            ("sum", "RArr") => return Ok(v(format!("rsum({0}.len, {0}.at)", recv.text), "real")),
+            ("get", "RArr") if args.len() == 1 => return self.elem(&recv, &args[0].text),
+            ("mapv", "RArr") => {
+                let (pn, body) = self.closure1(&m.args[0], "real")?;
+                return Ok(v(format!("RArr {{ len: {0}.len, at: |i__: int| {{ let {pn} = ({0}.at)(i__); {1} }} }}", recv.text, body.text), "RArr"));
+            }
+            ("unwrap_or", t) if t.starts_with("Option<") => {
+                return Ok(v(format!("(match {} {{ Some(x__) => x__, None => {} }})", recv.text, args[0].text), &args[0].ty));
+            }
+            ("unwrap" | "expect", t) if t.starts_with("Option<") || t.starts_with("Result<") => {
+                self.note("L16", whole.span(), "unwrap/expect: the panic path is dropped");
+                let inner = if t.starts_with("Option<") { t[7..t.len() - 1].to_string() } else { split_top(&t[7..t.len() - 1])[0].trim().to_string() };
+                let pat = if t.starts_with("Option<") { "Some(x__)" } else { "Ok(x__)" };
+                return Ok(v(format!("(match {} {{ {pat} => x__, _ => arbitrary() }})", recv.text), &inner));
+            }
+            _ => {}
+        }
+        // methods lifted in this unit or declared extern: f(recv, args)
+        if let Some((ptys, rty)) = self.reg.fns.get(&name).cloned() {
+            if ptys.len() != args.len() + 1 {
+                return Err(format!("construct outside rule list (lift): method `{name}` called with {} args, declared {}", args.len() + 1, ptys.len()));
+            }
+            let mut all = vec![recv.text.clone()];
+            all.extend(args.iter().map(|a| a.text.clone()));
+            self.note("L13", whole.span(), &format!("method call lifted to spec fn `{name}`"));
+            return Ok(v(format!("{name}({})", all.join(", ")), &rty));
+        }
+        Err(format!(
+            "construct outside rule list (lift): method `.{name}()` on {} (no //@lextern / //@lift for it) in `{}`",
+            recv.ty,
+            {
+                let mut s = whole.to_token_stream().to_string();
+                s.truncate(100);
+                s
+            }
+        ))
+    }
+}
+
+pub fn split_top(s: &str) -> Vec<String> {
+    let mut out = Vec::new();
+    let mut depth = 0i32;
+    let mut cur = String::new();
+    for c in s.chars() {
+        match c {
+            '<' | '(' | '[' => {
+                depth += 1;
+                cur.push(c)
+            }
+            '>' | ')' | ']' => {
+                depth -= 1;
+                cur.push(c)
+            }
+            ',' if depth == 0 => {
+                out.push(cur.clone());
+                cur.clear()
+            }
+            _ => cur.push(c),
+        }
+    }
+    if !cur.trim().is_empty() {
+        out.push(cur);
+    }
+    out
+}
+
+fn parse_sig(s: &str) -> R<(String, Vec<String>, String)> {
+    // name(t1, t2) -> t
+    let (head, ret) = s.rsplit_once("->").ok_or("expected `name(types) -> type`")?;
+    let (name, rest) = head.trim().split_once('(').ok_or("expected `(`")?;
+    let inner = rest.trim().strip_suffix(')').ok_or("expected `)`")?;
+    let ptys: Vec<String> = split_top(inner).iter().map(|s| s.trim().to_string()).filter(|s| !s.is_empty()).collect();
+    Ok((name.trim().to_string(), ptys, ret.trim().to_string()))
+}
+
+pub fn ltype(ctx: &mut Ctx, blk: &Block, raw: &str) -> Result<(String, Value), String> {
+    let (a, b) = raw.split_once("=>").ok_or("ltype: <Name> => <spec type>")?;
+    ctx.lift.types.insert(a.trim().to_string(), b.trim().to_string());
+    let _ = blk;
+    Ok((format!("// ltype {} => {}\n", a.trim(), b.trim()), json!({"item": format!("ltype {}", a.trim())})))
+}
+
+pub fn lextern(ctx: &mut Ctx, raw: &str, emit: bool) -> Result<(String, Value), String> {
+    let (name, ptys, ret) = parse_sig(raw)?;
+    ctx.lift.fns.insert(name.clone(), (ptys.clone(), ret.clone()));
+    let text = if emit {
+        let ps: Vec<String> = ptys.iter().enumerate().map(|(i, t)| format!("a{i}: {t}")).collect();
+        format!("pub uninterp spec fn {name}({}) -> {ret};   // L13\n", ps.join(", "))
+    } else {
+        format!("// ldeclare {raw}\n")
+    };
+    Ok((text, json!({"item": format!("lextern {name}"), "rewrites": [{"rule": "L13", "line": 0, "note": format!("`{name}` is an uninterpreted function")}]})))
+}
+
+pub fn lstruct(ctx: &mut Ctx, blk: &Block) -> Result<(String, Value), String> {
+    let (file, name) = (blk.args[0].clone(), blk.args[1].clone());
+    ctx.load(&file)?;
+    let st = ctx.files[&file].1
+        .items
+        .iter()
+        .find_map(|it| match it {
+            syn::Item::Struct(s) if s.ident == name => Some(s),
+            _ => None,
+        })
+        .ok_or(format!("lost anchor: struct `{name}` not found"))?;
+    let only: Option<Vec<String>> = blk.opt("fields").map(|s| s.split(',').map(|x| x.to_string()).collect());
+    let mut fields = Vec::new();
+    let mut dropped = Vec::new();
+    // register the name first so that self-references resolve
+    ctx.lift.structs.insert(name.clone(), vec![]);
+    let syn::Fields::Named(named) = &st.fields else { return Err("lstruct: named fields expected".into()) };
+    for f in &named.named {
+        let id = f.ident.as_ref().unwrap().to_string();
+        if let Some(o) = &only {
+            if !o.contains(&id) {
+                dropped.push(id);
+                continue;
+            }
+        }
+        let t = lift_type(&ctx.lift, &f.ty, Some(&name)).map_err(|e| format!("field {id}: {e}"))?;
+        fields.push((id, t));
+    }
+    let src: &str = &ctx.files[&file].0;
+    let offs = Offsets::new(src);
+    let (s0, e0) = offs.range(src, st.span());
+    ctx.lift.structs.insert(name.clone(), fields.clone());
+    let body: Vec<String> = fields.iter().map(|(k, t)| format!("    pub {k}: {t},")).collect();
+    let text = format!("pub struct L_{name} {{\n{}\n}}\n", body.join("\n"));
+    Ok((
+        text,
+        json!({"item": format!("struct {name} (lifted)"), "file": file, "src_lines": [line_of(src, s0), line_of(src, e0)], "src_bytes": [s0, e0],
+               "dropped": dropped.iter().map(|d| format!("field {d}")).collect::<Vec<_>>(), "mode": "lift"}),
+    ))
+}
+
+pub fn lift_fn(ctx: &mut Ctx, blk: &Block) -> Result<(String, Value), String> {
+    if blk.args.len() < 2 {
+        return Err("lift: expected <file> <path>".into());
+    }
+    let (file, path) = (blk.args[0].clone(), blk.args[1].clone());
+    ctx.load(&file)?;
+    let src = ctx.src(&file).to_string();
+    let offs = Offsets::new(&src);
+    // NB: `ctx.ast` borrows ctx immutably; registry is read-only during the lift
+    let f = find_fn(&ctx.files[&file].1, &path)?;
+    let self_ty: Option<String> = f.self_ty.and_then(|t| match t {
+        syn::Type::Path(p) => p.path.segments.last().map(|s| s.ident.to_string()),
+        _ => None,
+    });
+    let short = path.rsplit("::").next().unwrap().split('#').next().unwrap().to_string();
+    let name = blk.opt("name").map(|s| s.to_string()).unwrap_or(short.clone());
+    let reg = &ctx.lift;
+    // parameters
+    let mut params: Vec<(String, String)> = Vec::new();
+    let mut out_param = None;
+    for a in &f.sig.inputs {
+        match a {
+            syn::FnArg::Receiver(_) => {
+                let st = self_ty.clone().ok_or("receiver outside impl")?;
+                let t = reg.types.get(&st).cloned().unwrap_or(format!("L_{st}"));
+                params.push(("self_".into(), t));
+            }
+            syn::FnArg::Typed(t) => {
+                let pn = match &*t.pat {
+                    syn::Pat::Ident(i) => i.ident.to_string(),
+                    _ => return Err("construct outside rule list (lift): pattern parameter".into()),
+                };
+                if let syn::Type::Reference(r) = &*t.ty {
+                    if r.mutability.is_some() {
+                        out_param = Some(pn.clone());
+                    }
+                }
+                let ty = lift_type(reg, &t.ty, self_ty.as_deref()).map_err(|e| format!("parameter {pn}: {e}"))?;
+                params.push((pn, ty));
+            }
+        }
+    }
+    let ret_ty = match &f.sig.output {
+        syn::ReturnType::Default => match &out_param {
+            Some(p) => params.iter().find(|(n, _)| n == p).unwrap().1.clone(),
+            None => return Err("construct outside rule list (lift): function returns () and has no &mut parameter".into()),
+        },
+        syn::ReturnType::Type(_, t) => lift_type(reg, t, self_ty.as_deref()).map_err(|e| format!("return type: {e}"))?,
+    };
+    if !matches!(f.sig.output, syn::ReturnType::Default) {
+        out_param = None;
+    }
+    let mut outputs: Vec<(String, Option<String>)> = vec![(name.clone(), None)];
+    if let Some(obs) = blk.opt("observe") {
+        for o in obs.split(',') {
+            outputs.push((format!("{name}__{o}"), Some(o.to_string())));
+        }
+    }
+    let mut text = String::new();
+    let mut notes_all: Vec<(String, usize, String)> = Vec::new();
+    let mut havocs_all: Vec<String> = Vec::new();
+    let mut result_tys = Vec::new();
+    for (oname, observe) in &outputs {
+        let mut env0 = HashMap::new();
+        for (n, t) in &params {
+            env0.insert(n.clone(), t.clone());
+        }
+        let mut l = Lifter {
+            reg,
+            self_ty: self_ty.clone(),
+            fn_name: name.clone(),
+            params: params.clone(),
+            env: vec![env0],
+            havocs: vec![],
+            notes: vec![],
+            src: &src,
+            offs: &offs,
+            ret_ty: ret_ty.clone(),
+            tmp: 0,
+            hoist: vec![],
+            out_param: out_param.clone(),
+            observe: observe.clone(),
+        };
+        let body = l.stmts_with_cont(&f.block.stmts, None)?;
+        let rty = if observe.is_some() { body.ty.clone() } else { ret_ty.clone() };
+        if observe.is_none() && body.ty != ret_ty && !body.ty.contains('?') && !ret_ty.contains('?') {
+            return Err(format!("construct outside rule list (lift): body of {path} has type {} but the signature says {}", body.ty, ret_ty));
+        }
+        for h in &l.havocs {
+            if !havocs_all.contains(h) {
+                havocs_all.push(h.clone());
+            }
+        }
+        if observe.is_none() {
+            notes_all = l.notes.clone();
+        }
+        let ps: Vec<String> = params.iter().map(|(n, t)| format!("{n}: {t}")).collect();
+        text.push_str(&format!("pub open spec fn {oname}({}) -> {rty} {{\n    {}\n}}\n", ps.join(", "), body.text));
+        result_tys.push((oname.clone(), rty));
+    }
+    let text = format!("{}{}{}", havocs_all.join("\n"), if havocs_all.is_empty() { "" } else { "\n" }, text);
+    // register for later units
+    let ptys: Vec<String> = params.iter().map(|(_, t)| t.clone()).collect();
+    let key = name.clone();
+    let (s0, e0) = (offs.range(&src, f.sig.span()).0, offs.range(&src, f.block.span()).1);
+    let rewrites: Vec<Value> = notes_all.iter().map(|(r, l, n)| json!({"rule": r, "line": l, "note": n})).collect();
+    let rep = json!({
+        "item": path, "file": file, "mode": "lift",
+        "src_lines": [line_of(&src, s0), line_of(&src, e0)], "src_bytes": [s0, e0],
+        "rewrites": rewrites,
+        "lifted_as": result_tys.iter().map(|(n, t)| format!("{n} -> {t}")).collect::<Vec<_>>(),
+        "dropped": ["rounding, overflow, NaN, signed zeros (A11)", "physical units (L11)"],
+    });
+    for (n, t) in result_tys {
+        ctx.lift.fns.insert(n, (ptys.clone(), t));
+    }
+    let _ = key;
+    Ok((text, rep))
 }
